@@ -40,6 +40,14 @@ class Copy:
         self.file, self.regex, self.subst, self.prefix, self.strip_attrs = file, regex, list(subst), prefix, strip_attrs
 
 
+class ByteConst:
+    """R11: `pub const NAME: &[u8] = b"...";` copied from /repo as an external_body exec const whose `ensures` lists the
+    literal's bytes, computed mechanically from the literal text (Verus does not evaluate byte-string literals)."""
+
+    def __init__(self, file, name):
+        self.file, self.name = file, name
+
+
 class Raw:
     """Hand-written Verus text (models, spec functions, lemmas) emitted verbatim; part of the trusted/assumed prelude
     unless it is a proof fn (which Verus checks)."""
